@@ -210,6 +210,12 @@ def run_family(prog, fam_name, setup, post, contracts=None, force_contract=(), b
         # constructor raised for every well-formed argument) - never a silent pass
         fam.error = "unsupported: vacuous family, every path was assumed away (pre-state could not be built)"
     fam.stats = stats
+    # helper contracts this family used instead of the helpers' bodies (each must be established
+    # by the helper's own family in the same check, see cli)
+    used = set()
+    for res in results:
+        used |= set(res.interp.ghost.get("helper_contracts_used", ()))
+    fam.helpers_used = sorted(used)
     for oi, (opath, dead) in enumerate(orphans):
         for (label, pc, cond, info) in dead:
             ob = Obl(f"{fam_name}/{label}@dead{oi}", props_for_label(label), list(pc), cond, kind="pre", info=info,
